@@ -1120,15 +1120,8 @@ func (d *Data) GetKeysInRange(ctx storage.VersionedCtx, keyBeg, keyEnd string) (
 			pos++
 		}
 	} else {
-		var begTKey, endTKey storage.TKey
-		begTKey, err = NewTKey(keyBeg)
-		if err != nil {
-			return nil, err
-		}
-		endTKey, err = NewTKey(keyEnd)
-		if err != nil {
-			return nil, err
-		}
+		// Stored keys are decimal strings ordered lexicographically, so a numeric range is not a
+		// contiguous key range: scan all annotation keys and filter numerically.
 		keys = []string{} // like the in-memory path: an empty list, not a JSON null, when there are no keys
 		process_func := func(key string) {
 			bodyid, err := parseKeyStr(key)
@@ -1136,7 +1129,7 @@ func (d *Data) GetKeysInRange(ctx storage.VersionedCtx, keyBeg, keyEnd string) (
 				keys = append(keys, key)
 			}
 		}
-		err = d.processStoreKeysInRange(ctx, begTKey, endTKey, process_func)
+		err = d.processStoreAllKeys(ctx, process_func)
 	}
 	return
 }
@@ -1742,14 +1735,10 @@ func (d *Data) sendJSONValuesInRange(ctx storage.VersionedCtx, w http.ResponseWr
 		return 0, err
 	}
 
-	first, err := NewTKey(keyBeg)
-	if err != nil {
-		return 0, err
-	}
-	last, err := NewTKey(keyEnd)
-	if err != nil {
-		return 0, err
-	}
+	// Stored keys are decimal strings ordered lexicographically, so a numeric range is not a
+	// contiguous key range: the store path scans all annotation keys and filters numerically.
+	first := storage.MinTKey(keyAnnotation)
+	last := storage.MaxTKey(keyAnnotation)
 	db, err := datastore.GetOrderedKeyValueDB(d)
 	if err != nil {
 		return 0, err
@@ -1808,6 +1797,9 @@ func (d *Data) sendJSONValuesInRange(ctx storage.VersionedCtx, w http.ResponseWr
 				bodyid, err := parseKeyStr(key)
 				if err != nil {
 					return err
+				}
+				if bodyid < bodyidBeg || bodyid > bodyidEnd {
+					return nil
 				}
 				writeCh <- writeData{bodyid, out}
 				return nil
